@@ -49,3 +49,160 @@ def check(ctx, rep):
             else:
                 rep.ok("R-TZ", key, b.where(bi), "instant-preserving (%s)" % meth)
     return n
+
+
+# ---------------------------------------------------------------------- zone-name omission guard
+from rules import guards as G
+from vlib import fmtargs
+from vlib.mir import op_place
+
+
+def check_utc_guard(ctx, rep):
+    """the zone name is left out of the written form only for the UTC zone itself: is_utc() compares the *zone* with UTC
+    (not the offset, which is also zero for London in winter), and both writers omit the zone only under is_utc()"""
+    prog = ctx.prog
+    n = 0
+    iu = prog.get("haystack::timezone::iana::is_utc")
+    if iu is None:
+        rep.gap("timezone::is_utc", "-", "not found")
+    else:
+        n += 1
+        calls = [strip_generics(mir.callee_name(t) or "") for _, t in iu.calls()]
+        zone_eq = any(c == "<chrono_tz::Tz as std::cmp::PartialEq>::eq" for c in calls) and any(c.endswith("DateTime::timezone") for c in calls)
+        offsetish = [c for c in calls if re.search(r"(::offset$|::fix$|local_minus_utc|utc_minus_local|::ends_with$|base_utc_offset|dst_offset)", c)]
+        if zone_eq and not offsetish:
+            rep.ok("T-TZGUARD", "is_utc:zone-identity", iu.where(), "is_utc is `timezone() == UTC` (zone identity)")
+        else:
+            rep.bad("T-TZGUARD", "T-TZGUARD:is_utc:zone-identity", iu.where(), "is_utc is not the zone-identity test timezone() == UTC (calls %s): a named zone whose offset happens to be zero would be taken for UTC and lose its name" % [c.split("::")[-1] for c in calls])
+    writers = [
+        ("<haystack::val::datetime::DateTime as haystack::encoding::zinc::encode::ToZinc>::to_zinc", "zinc"),
+        ("haystack::encoding::json::encode::<impl serde::Serialize for haystack::val::datetime::DateTime>::serialize", "hayson"),
+    ]
+    for short, what in writers:
+        b = next((x for x in prog.bodies.values() if x.short == short), None)
+        if b is None:
+            rep.gap("DateTime writer " + what, "-", "not found")
+            continue
+        # blocks that write the zone name
+        zone_sites = []
+        for bi, t in b.calls():
+            nm = strip_generics(mir.callee_name(t) or "")
+            if nm == "serde::ser::SerializeMap::serialize_entry":
+                k = G.describe(b, t["args"][1])
+                if k.kind == "conststr" and k.v == "tz":
+                    zone_sites.append(bi)
+            elif nm in ("std::io::Write::write_fmt",):
+                a = fmtargs.arguments_of(b, t["args"][1])
+                if a and a[1] and any("timezone_short_name" in repr(G.describe(b, x[2])) for x in a[1]):
+                    zone_sites.append(bi)
+        if not zone_sites:
+            rep.gap("DateTime writer %s: zone site" % what, b.where(), "no write of the zone name found")
+            continue
+        for zb in zone_sites:
+            n += 1
+            gs = G.guards_at(b, zb)
+            by_utc = [g for g in gs if g.a is not None and g.a.kind == "call" and g.a.v.endswith("DateTime::is_utc") and g.op == "False"]
+            others = [g for g in gs if g.a is not None and g.a.kind == "call" and not g.a.v.endswith("DateTime::is_utc") and not g.a.v.endswith("Try>::branch") and g.op in ("True", "False")]
+            key = "zone-written-unless-utc:%s" % what
+            if by_utc and not others:
+                rep.ok("T-TZGUARD", key, b.where(zb), "the zone name is written on exactly the !is_utc() path")
+            else:
+                rep.bad("T-TZGUARD", "T-TZGUARD:" + key, b.where(zb), "the %s writer decides whether to write the zone name by %s instead of is_utc(): a non-UTC zone can be dropped and reads back as UTC" % (what, [repr(g)[:60] for g in (others or gs)][:2]))
+    return n
+
+
+def check_offset_fields(ctx, rep):
+    """parse_time_zone reads the six characters sign D D ':' D D: the slices it parses as hours and minutes are exactly
+    the two digit runs, the sign is the first character, east_opt is used exactly for '+' and west_opt otherwise"""
+    prog = ctx.prog
+    from rules import panic as P
+
+    b = prog.get("haystack::encoding::zinc::decode::scalar::date_time::parse_time_zone")
+    if b is None:
+        rep.gap("parse_time_zone", "-", "not found")
+        return 0
+    arrays = [st["rv"] for blk in b.blocks for st in blk["stmts"] if st["k"] == "assign" and st["rv"]["k"] == "agg" and st["rv"].get("ak") == "array" and st["rv"].get("ty") == "u8"]
+    if len(arrays) != 1:
+        rep.gap("parse_time_zone:offset array", b.where(), "expected one byte array literal, found %d" % len(arrays))
+        return 0
+    classes = []
+    for o in arrays[0]["ops"]:
+        r = fmtargs.chase(b, o)
+        cls = "?"
+        pl = r[1] if r and r[0] == "place" else None
+        if pl is not None:
+            sd = b.single_def(pl["l"])
+            if sd and sd[1] == "term" and sd[2]["args"]:
+                rr = fmtargs.chase(b, sd[2]["args"][0])
+                if rr and rr[0] == "call":
+                    call = rr[1]
+                    nm = strip_generics(mir.callee_name(call) or "")
+                    kind = P.EXPECT_FNS.get(nm)
+                    if kind == "range":
+                        rg = P._range_const(b, call["args"][1])
+                        cls = "digit" if rg == (48, 57) else "range%s" % (rg,)
+                    elif kind == "str":
+                        v = G.describe(b, call["args"][1])
+                        cls = "sign" if v.kind == "conststr" and set(v.v) == {"+", "-"} else "set"
+                    elif kind == "byte":
+                        v = G.describe(b, call["args"][1])
+                        cls = "lit:%s" % chr(v.v) if v.kind == "const" else "byte"
+        classes.append(cls)
+    runs = []
+    i = 0
+    while i < len(classes):
+        if classes[i] == "digit":
+            j = i
+            while j < len(classes) and classes[j] == "digit":
+                j += 1
+            runs.append((i, j))
+            i = j
+        else:
+            i += 1
+    signpos = [(i, i + 1) for i, c in enumerate(classes) if c == "sign"]
+    n = 0
+
+    def slice_of(v):
+        # unwrap_or(parse(index(S, Range(a,b))), 0)
+        if v.kind == "call" and v.v == "std::result::Result::unwrap_or" and v.args and v.args[0].kind == "call" and v.args[0].v == "core::str::<impl str>::parse":
+            ix = v.args[0].args[0]
+            if ix.kind == "call" and ix.v.endswith("::index") and ix.args[1].kind == "agg" and ix.args[1].v == "Range":
+                a, c = ix.args[1].args
+                if a.kind == "const" and c.kind == "const":
+                    return (a.v, c.v)
+        return None
+
+    got = {}
+    for bi, t in b.calls():
+        nm = strip_generics(mir.callee_name(t) or "")
+        if nm in ("chrono::TimeDelta::hours", "chrono::TimeDelta::minutes"):
+            got[nm.split("::")[-1]] = (slice_of(G.describe(b, t["args"][0])), bi)
+    for what, idx in (("hours", 0), ("minutes", 1)):
+        n += 1
+        key = "offset-field:%s" % what
+        want = runs[idx] if len(runs) > idx else None
+        g = got.get(what)
+        if g and g[0] == want and want is not None:
+            rep.ok("T-OFFSET", key, b.where(g[1]), "%s parsed from characters %s, the %s digit run of the pattern %s" % (what, want, ["first", "second"][idx], classes))
+        else:
+            rep.bad("T-OFFSET", "T-OFFSET:" + key, b.where(g[1]) if g else b.where(), "%s are parsed from characters %s but the %s digit run of the scanned pattern %s is %s: the offset read differs from the one written" % (what, g[0] if g else None, ["first", "second"][idx], classes, want))
+    # sign
+    east = [bi for bi, t in b.calls() if strip_generics(mir.callee_name(t) or "") == "chrono::FixedOffset::east_opt"]
+    west = [bi for bi, t in b.calls() if strip_generics(mir.callee_name(t) or "") == "chrono::FixedOffset::west_opt"]
+    n += 1
+
+    def plus_guard(bi, truth):
+        for g in G.guards_at(b, bi):
+            r = repr(g)
+            if g.op == truth and "conststr:+" in r and ("::eq(" in r):
+                # the compared string must be the sign slice
+                for sp in signpos:
+                    if "const %d, const %d" % sp in r:
+                        return True
+        return False
+
+    if east and west and all(plus_guard(x, "True") for x in east) and all(plus_guard(x, "False") for x in west):
+        rep.ok("T-OFFSET", "offset-sign", b.where(east[0]), "east_opt under sign == \"+\", west_opt otherwise; the sign is character %s" % (signpos[0],))
+    else:
+        rep.bad("T-OFFSET", "T-OFFSET:offset-sign", b.where((east + west + [0])[0]), "the offset's direction is not selected by the sign character (east_opt sites %s, west_opt sites %s): negative offsets are read wrongly" % (east, west))
+    return n
